@@ -2,7 +2,7 @@
 import ast
 
 from vstat.loader import AnalysisError
-from vstat.terms import builder, show, SELF, NONE, G, alts, walk, mentions, phi, subst, strip_none
+from vstat.terms import IT, builder, show, SELF, NONE, G, alts, walk, mentions, phi, subst, strip_none
 from vstat.guards import path_conditions, exception_name
 from vstat.cfg import cfg_of
 from vstat.dataflow import rd_of
@@ -171,7 +171,7 @@ def wlsq_error(prog, rep):
               f"zero observations must be removed from x, p AND w alike; unfiltered use of {raw}")
     ok = False
     if est is not None and ok_est:
-        ah, bh = ("item", est, 0), ("item", est, 1)
+        ah, bh = IT(est, 0), IT(est, 1)
         xhat = mul(ah, ("bin", "**", lin_p(), ("bin", "/", ("const", 1), bh)))
         want = S(mul(W, ("bin", "**", ("bin", "-", X, xhat), ("const", 2))))
         ok = algebra.same(t, want)
